@@ -602,6 +602,11 @@ def load_modify_store(ctx, fns, rule="R-ATOM.lms"):
             n += 1
             others = [o for o in ms if o is not m]
             bad = [o for o in others if not (o[3] & m[3])]
+            # with no lock held and a shared (`&self`) receiver the load/store pair also races with itself:
+            # two threads running this very function lose each other's update
+            shared_self = m[0].nargs >= 1 and m[0].ty(1).startswith("&") and not m[0].ty(1).startswith("&mut")
+            if not m[3] and shared_self and not bad:
+                bad = [m]
             ok = not bad
             ctx.obligation(rule, m[0].id, "store(load+..) on %s" % fld.rsplit("::", 1)[-1], ok,
                            sample={"fn": m[0].id, "atomic": fld, "line": m[5], "locks_held": sorted(m[3]),
@@ -771,4 +776,43 @@ def lock_split(ctx, fn, rule="R-LOCKSPLIT"):
                                   "a value read under the guard taken at line %s decides a branch; the guard is released and the branch "
                                   "takes %s again at line %s to write: two threads can both pass the check before either writes"
                                   % (l1, fld.rsplit("::", 1)[-1], l2), fn.file, l2)
+    return n
+
+
+# ---------------------------------------------------------------- R-INFLIGHT
+def inc_dec_pairing(ctx, fn, rule="R-INFLIGHT", fields_rx=None):
+    """an in-flight counter that a function both increments and decrements (fetch_add / fetch_sub on the same atomic)
+    is decremented on every path from the increment to the next increment, to a normal return or to the loop's exit:
+    a `continue`/`break` taken between the two leaves the counter up for good (the executor never looks idle again)."""
+    import re as _re
+    frx = _re.compile(fields_rx) if fields_rx else None
+    sites = atomic_sites(fn)
+    by = {}
+    for b, op, fld, c in sites:
+        if fld and op in ("fetch_add", "fetch_sub") and (frx is None or frx.search(fld)):
+            k = op_const(c["a"][1]) if len(c["a"]) > 1 else None
+            if k is not None and k[0] == 1:
+                by.setdefault(fld, {"fetch_add": [], "fetch_sub": []})[op].append((b, c))
+    n = 0
+    rets = [b for b in fn.blocks() if fn.term(b)[0] == "ret"]
+    for fld, d in by.items():
+        if not d["fetch_add"] or not d["fetch_sub"]:
+            continue
+        subs = [b for b, _ in d["fetch_sub"]]
+        for a, c in d["fetch_add"]:
+            n += 1
+            start = [c["t"]] if c.get("t") is not None else fn.succ(a)
+            reach = fn.reachable_from(start, avoid=subs)
+            bad = None
+            if a in reach:
+                bad = "the next iteration"
+            elif any(r in reach for r in rets):
+                bad = "a return"
+            ctx.obligation(rule, fn.id, "%s incremented@%s is decremented on every path" % (fld.rsplit("::", 1)[-1], c["ln"]), bad is None,
+                           sample={"fn": fn.id, "counter": fld, "inc_line": c["ln"], "dec_lines": sorted(cc["ln"] for _, cc in d["fetch_sub"])})
+            if bad:
+                ctx.violation(rule, fn.id, "%s left incremented" % fld.rsplit("::", 1)[-1],
+                              "%s is incremented at line %s and a path reaches %s without passing any of its decrements (lines %s): "
+                              "the count of items in flight never returns to zero" %
+                              (fld.rsplit("::", 1)[-1], c["ln"], bad, sorted(cc["ln"] for _, cc in d["fetch_sub"])), fn.file, c["ln"])
     return n
